@@ -55,18 +55,22 @@ def rType : Cls → Nat → Nat
   | .c64, i => i % 4294967296
 
 /-- two's-complement bit pattern of `v` in `8*n` bits -/
-def twos (nbytes : Nat) (v : Int) : Nat := (v % (2 ^ (8 * nbytes) : Nat)).toNat
+def twos (nbytes : Nat) (v : Int) : Nat := (v % ((2 ^ (8 * nbytes) : Nat) : Int)).toNat
 
 /-- value of an `8*n`-bit two's-complement bit pattern -/
 def untwos (nbytes : Nat) (x : Nat) : Int :=
   if 2 * (x % 2 ^ (8 * nbytes)) < 2 ^ (8 * nbytes) then ((x % 2 ^ (8 * nbytes) : Nat) : Int)
   else ((x % 2 ^ (8 * nbytes) : Nat) : Int) - ((2 ^ (8 * nbytes) : Nat) : Int)
 
+/-- the bytes of a record with the given member values -/
+def encodeRaw (c : Cfg) (k : RelKind) (offset info : Nat) (addend : Int) : Bytes :=
+  let w := wordBytes c.cls
+  encodeInt c.enc w offset ++ encodeInt c.enc w info ++
+    (if hasAddend k then encodeInt c.enc w (twos w addend) else [])
+
 /-- the bytes of one entry -/
 def encodeEntry (c : Cfg) (k : RelKind) (e : RelocEntry) : Bytes :=
-  let w := wordBytes c.cls
-  encodeInt c.enc w e.offset ++ encodeInt c.enc w (rInfo c.cls e.sym e.type) ++
-    (if hasAddend k then encodeInt c.enc w (twos w e.addend) else [])
+  encodeRaw c k e.offset (rInfo c.cls e.sym e.type) e.addend
 
 /-- the entry a record of `entSize` bytes stands for (REL: addend 0) -/
 def decodeEntry (c : Cfg) (k : RelKind) (bs : Bytes) : RelocEntry :=
